@@ -12,7 +12,7 @@ RULES = {
     'C14.R3': 'axis_bounds / hyperrectangle / place_axis_bounds: finite lower bound -x <= -l, finite upper bound x <= u, infinite bound 0 <= 1, one pair of rows per axis',
     'C14.R2': 'constructors without data-dependent control: unbounded (0·x <= 1), empty (0·x <= -1), hypercube (stack(I, -I) <= radius)',
 }
-FLOORS = {'C14.R1': 9, 'C14.R2': 3, 'C14.R3': 3}
+FLOORS = {'C14.R1': 10, 'C14.R2': 3, 'C14.R3': 3}
 EXPLANATION = ('With r(x) = b - Ax (membership: r(x) >= -1e-8 row-wise) each transformation\'s result (A\', b\') is compared, as a polynomial identity valid for all '
                'matrices, with the residual the documentation prescribes: translate r(x-d), apply_pre r(Mx+c), apply_post r(N(y-k)), rotate r(R^T y).')
 DOES_NOT_DECIDE = ('simplex, cross_polytope (loops over computed entries: out of fragment), from_normal (orientation not documented), '
@@ -21,6 +21,7 @@ TRUSTED = ['semantics of ndarray dot/+/-/neg/t/concatenate/eye/zeros/ones/from_e
 
 
 def run(ctx):
+    prune.check_layout_independence(ctx, 'C14.R1')
     F = ctx.facts
     poly = lambda b: 'PolytopeT' in (b.impl_self or '')
     # residual of the result at a symbolic point y must equal the documented pre-image residual
@@ -251,6 +252,16 @@ def distance(ctx, F):
             if Callee(t['func']).name == 'div_assign' and any(x == ('upvar', 'norm') for x in walk(Rc.call_args(bb)[1])):
                 div_ok = True
     sqrt = any(Callee(t['func']).name == 'sqrt' for bb, t in b.calls())
+    if not norm_ok:
+        # the norm in another spelling (dot product, accumulator loop / fold, a shared helper): it must be the norm of the zipped row of A
+        from .prune import l2_norm_row
+        from ..mir import strip_sites
+        for bb, t in b.calls():
+            if Callee(t['func']).name == 'sqrt':
+                v = l2_norm_row(F, b, R, R.call_expr(t, bb))
+                if v is not None and v[0] == 'field' and v[2] == '0' and is_call(v[1], 'Iterator::next') and is_call(v[1][2][0], 'zip') and \
+                        is_call(v[1][2][0][2][0], 'ArrayBase::outer_iter') and v[1][2][0][2][0][2][0] == ('field', ('param', 'self'), 'mat'):
+                    norm_ok = True
     # the division is applied to every row: the call that scales a row is not control-dependent on anything but the loop itself
     # (signed infinity for all-zero rows comes from IEEE division: +inf for 0 <= b, -inf for 0 <= -b)
     uncond = False
